@@ -44,6 +44,7 @@ def _body(E, w, prog):
     for stage in ("materialized", "materialized_off"):
         m = catalog.stages(E, w, prog.node, {stage})[stage]
         E.ensure(f"{stage}-advertises-the-same-chunks", EQ(tuple(map(tuple, m.chunks)), tuple(map(tuple, adv))))
+        E.ensure(f"{stage}-advertises-the-same-dtype", m.dtype == prog.node.dtype)
         catalog.run_tree(E, m, adv, stage, check_shapes=True)
 
 
